@@ -82,12 +82,19 @@ def finding_class(units, ans):
                            env=env_for_cargo())
         first = p.stderr.decode("utf8", "replace").strip().split("\n")[0] if p.stderr else ""
         # is the crash caused by formatting an aggregate (print!/format! of an array, slice or structure)?
-        rx = re.compile(r"^[^\n]*\b(?:print|format|eprint)!\(\s*[A-Za-z_][A-Za-z0-9_.]*\s*[,)][^\n]*$", re.M)
+        rx = re.compile(r"^[^\n]*\b(?:print|format|eprint|panic)!\(\s*[A-Za-z_][A-Za-z0-9_.]*\s*[,)][^\n]*$", re.M)
         if any(rx.search(src) for _, src in units):
             rq2 = "alpha\tir\t" + "\t".join(x for nm, src in units for x in (nm, esc(rx.sub("", src))))
             a2 = run_harness_serial([rq2])[0]
             if not a2.startswith("crash"):
                 return "crash:format-of-aggregate"
+        # ... or by `panic!` / `abort!` (which do not return) used where a value is needed?  (make it a statement of its own)
+        rv = re.compile(r"^([ \t]*)(?:var\s+[A-Za-z_][A-Za-z0-9_]*(?:\s*:[^=\n]*)?|[A-Za-z_][A-Za-z0-9_.\[\]]*)\s*=\s*((?:panic|abort)!\([^\n]*\));", re.M)
+        if any(rv.search(src) for _, src in units):
+            rq2 = "alpha\tir\t" + "\t".join(x for nm, src in units for x in (nm, esc(rv.sub(r"\1\2;", src))))
+            a2 = run_harness_serial([rq2])[0]
+            if not a2.startswith("crash"):
+                return "crash:panic-or-abort-builtin-used-as-a-value"
         return "crash:" + re.sub(r"[0-9]+", "N", first)[:100]
     if ans.startswith("internal"):
         m = re.search(r"msg=(.*)$", ans)
@@ -104,6 +111,12 @@ def finding_class(units, ans):
                 a2 = run_harness_serial(["alpha\tir\t" + "\t".join(x for nm, sj in units2 for x in (nm, esc(sj)))])[0]
                 if classify(a2) != "err-empty":
                     return "err-empty:array-literal-element-type-mismatch"
+        # ... or by the unfinished `dbg!` builtin, which drops the error of its argument?  (replace each `dbg!(e)` by `e`)
+        if any("dbg!(" in src for _, src in units):
+            units2 = [(nm, re.sub(r"dbg!\(([^()]*)\)", r"\1", sj)) for nm, sj in units]
+            a2 = run_harness_serial(["alpha\tir\t" + "\t".join(x for nm, sj in units2 for x in (nm, esc(sj)))])[0]
+            if classify(a2) != "err-empty":
+                return "err-empty:dbg-builtin-drops-the-error-of-its-argument"
     return None
 
 
@@ -160,6 +173,12 @@ def main():
         inputs.append([("c.pn", src)])
     for src in faultgen.constant_hazards():
         inputs.append([("k.pn", src)])
+    # every builtin with 0..2 arguments that are defined, undefined, skipped by a goto, or of an odd type
+    for b in ("print", "eprint", "format", "panic", "dbg", "file", "line", "abort", "include_bytes", "nosuchbuiltin"):
+        for args in ("", "x", "u", "y", "x, x", '"a.txt"', "x, \"s\"", "arr", "st", "&x", "1", "-1i8", "true"):
+            for form in ("\t%s!(%s);\n", "\tvar r = %s!(%s);\n", "\tx = %s!(%s);\n"):
+                inputs.append([("b.pn", "struct S\n{\n\ta: i32,\n}\nfn main()\n{\n\tvar x: i32 = 1;\n\tvar arr: [2]i32 = [1, 2];\n"
+                                "\tvar st = S { a: 1 };\n\tgoto skip;\n\tvar y: i32 = 2;\n\tskip:\n" + form % (b, args) + "}\n")])
     # the forwarding and address matrices of C08 (writes through every kind of parameter, `&` in every expression position)
     import c08
     for _what, src in c08.forwarding_matrix() + c08.address_matrix():
